@@ -4667,6 +4667,12 @@ struct Builder<'a, 'graph> {
   graph: &'graph mut ModuleGraph,
   state: PendingState<'a>,
   fill_pass_mode: FillPassMode,
+  /// The package selections and redirects the graph was seeded with
+  /// (ex. from a lockfile), which a restart must bring back.
+  restart_seed: Option<(
+    PackageSpecifiers,
+    BTreeMap<ModuleSpecifier, ModuleSpecifier>,
+  )>,
   executor: &'a dyn Executor,
   resolved_roots: BTreeSet<ModuleSpecifier>,
 }
@@ -4680,6 +4686,12 @@ impl<'a, 'graph> Builder<'a, 'graph> {
     let fill_pass_mode = match graph.roots.is_empty() {
       true => FillPassMode::AllowRestart,
       false => FillPassMode::NoRestart,
+    };
+    let restart_seed = match fill_pass_mode {
+      FillPassMode::AllowRestart => {
+        Some((graph.packages.clone(), graph.redirects.clone()))
+      }
+      _ => None,
     };
     Self {
       in_dynamic_branch: options.is_dynamic,
@@ -4712,6 +4724,7 @@ impl<'a, 'graph> Builder<'a, 'graph> {
         ..Default::default()
       },
       fill_pass_mode,
+      restart_seed,
       executor: options.executor,
       resolved_roots: Default::default(),
     }
@@ -5361,6 +5374,10 @@ impl<'a, 'graph> Builder<'a, 'graph> {
   ) -> LocalBoxFuture<'_, ()> {
     // if restarting is allowed, then the graph will have been empty at the start
     *self.graph = ModuleGraph::new(self.graph.graph_kind);
+    if let Some((packages, redirects)) = &self.restart_seed {
+      self.graph.packages = packages.clone();
+      self.graph.redirects = redirects.clone();
+    }
     self.state = PendingState::default();
     self.fill_pass_mode = FillPassMode::CacheBusting;
 
